@@ -75,6 +75,8 @@ func startSolver(kind string, timeoutMs int) (*Solver, error) {
 	} else {
 		fmt.Fprintf(in, "(set-option :timeout %d)\n", timeoutMs)
 	}
+	// the specification table is defined once per session (outside push/pop)
+	io.WriteString(in, specTab().prelude)
 	return s, nil
 }
 
@@ -382,7 +384,7 @@ func (p *Pool) Decide(body string, getValues []string, quickMs, slowMs int) Resu
 		return r
 	}
 	first := r
-	for _, k := range []string{"cvc5", "z3"} {
+	for _, k := range []string{"z3", "cvc5"} {
 		r = p.RunOn(k, slowMs, body, getValues)
 		if r.Status == "unsat" || r.Status == "sat" {
 			return r
